@@ -215,6 +215,18 @@ def t_inuse_closure(facts, res, tier):
         res.fail(key, facts.where(fn), "the published in-use set is not the set filled by the traversal")
     elif stmts.index(assigns[0]) < max(stmts.index(s) for s in stmts if s.get("k") == "for"):
         res.fail(key, facts.where(fn), "the in-use set is published before the interrupt roots are traversed")
+    # the accumulator starts empty: anything put into it beforehand counts as visited and is never expanded
+    key = "T-INUSE-CLOSURE:starts-empty"
+    res.inst(key)
+    if setvar is not None:
+        name = setvar.replace("&mut", "").replace("&", "").strip()
+        inits = [s for s in walk(fn["body"]) if s.get("k") == "let" and s["pat"].get("k") == "ident" and s["pat"]["name"] == name and "init" in s]
+        it = expr_text(inits[0]["init"]).replace(" ", "") if inits else ""
+        if not re.match(r"^Hash(Set|Map)(::<.*>)?::(new|default)\(\)$|^Default::default\(\)$", it):
+            res.fail(key, facts.where(fn, inits[0] if inits else None), "the in-use set handed to the traversal is initialised with `%s`, not empty: whatever it already contains is treated as visited and its callees are never followed" % it[:120])
+        pre = [s for s in stmts if s.get("k") == "mcall" and expr_text(s["recv"]) == name and s["method"] in ("insert", "extend")]
+        if pre:
+            res.fail(key, facts.where(fn, pre[0]), "entries are put into the in-use set outside the traversal: they count as visited and their callees are never followed")
     rf = facts.fn("function_is_actually_in_use", GEN_QUAL)
     key = "T-INUSE-CLOSURE:recursion"
     res.inst(key)
@@ -482,6 +494,32 @@ def stmt_order_free(s, hf, hl, local=frozenset()):
     return False, "`%s`" % expr_text(s)[:80]
 
 
+def sort_is_total(call):
+    """Is the order imposed on the collected (&key, &value) pairs total on distinct entries?
+    Accepted: the natural order of the pairs (keys of a map are unique), a comparison that includes the
+    whole key (`.0`), or the insertion counter `.order` (unique by T-ORDER-FRESH)."""
+    m = call["method"]
+    if m in ("sort", "sort_unstable"):
+        return True, ""
+    if not call["args"] or call["args"][0].get("k") != "closure":
+        return False, "comparator is not a closure the rule can read"
+    cl = call["args"][0]
+    ps = [p.get("name") for p in cl["params"] if p.get("k") == "ident"]
+    body = expr_text(cl["body"]).replace(" ", "")
+    if m in ("sort_by", "sort_unstable_by") and len(ps) == 2:
+        a, b = ps
+        for fld in ("0", "1.order"):
+            if re.search(r"\b%s\.%s\.cmp\(&?%s\.%s\)" % (re.escape(a), re.escape(fld), re.escape(b), re.escape(fld)), body):
+                return True, ""
+        return False, "`%s`" % body[:80]
+    if m in ("sort_by_key", "sort_unstable_by_key") and len(ps) == 1:
+        x = ps[0]
+        if re.match(r"^%s\.(0|1\.order)(\.clone\(\))?$" % re.escape(x), body):
+            return True, ""
+        return False, "`%s`" % body[:80]
+    return False, "`%s`" % body[:80]
+
+
 @rule("T-HASH-ITER", floor=6,
       text="every iteration over a HashMap/HashSet (for-loops and iterator adaptors; receiver types resolved from struct fields, annotations, constructors and tuple return types) is consumed in a way that does not depend on iteration order: inserting into another hash container without numbering, set-building traversals, or collecting into a Vec that is sorted before any other use")
 def t_hash_iter(facts, res, tier):
@@ -524,8 +562,12 @@ def t_hash_iter(facts, res, tier):
                             if x.get("k") == "let" and "init" in x and node in list(walk(x["init"])) and expr_text(x["init"]).endswith(".collect()") and x["pat"].get("k") == "ident":
                                 v = x["pat"]["name"]
                                 nxt = st[i + 1] if i + 1 < len(st) else None
-                                if nxt is not None and nxt.get("k") == "mcall" and nxt["method"] in ("sort_by", "sort_by_key", "sort", "sort_unstable_by", "sort_unstable_by_key") and expr_text(nxt["recv"]) == v:
-                                    ok = True
+                                if nxt is not None and nxt.get("k") == "mcall" and nxt["method"] in ("sort_by", "sort_by_key", "sort", "sort_unstable", "sort_unstable_by", "sort_unstable_by_key") and expr_text(nxt["recv"]) == v:
+                                    tot, twhy = sort_is_total(nxt)
+                                    if tot:
+                                        ok = True
+                                    else:
+                                        why = "the collected Vec is sorted by a key that is not unique (%s): entries that compare equal stay in hash order" % twhy
                                 else:
                                     why = "the collected Vec is not sorted before use"
                 res.inst(key, True, {"function": fn["name"], "sorted_before_use": ok})
